@@ -231,6 +231,8 @@ def run(ctx) -> None:
     ctx.rule("C11.R12-raw-components-are-validated", "FlowIR.validate checks every raw component (all override sections, not only the active platform's) "
              "against the closed component schema whenever the components are a list of dictionaries: the loop is not guarded by the "
              "truthiness of an error list")
+    ctx.rule("C11.R13-a-reference-is-known-by-stage-and-name", "validate_references marks a referenced component as known only under a test that uses its whole "
+             "identifier - the stage AND the name: 'stage1.setup' is dangling although 'stage0.setup' exists")
     ctx.rule("C11.R10-validators-see-process-constant-tables", "the class-level collections of FlowIR that decide whether 'name:ref' is a component or "
              "a folder (SpecialFolders, ...) are never mutated in place: otherwise what one load reserved makes a later load accept a "
              "reference to a component that does not exist")
@@ -628,3 +630,30 @@ def run(ctx) -> None:
     rets = [r for r in source.walk_own(cv) if isinstance(r, ast.Return)]
     ok = len(rets) == 1 and isinstance(rets[0].value, ast.Name) and rets[0].value.id == OUTERR
     ctx.ob("C11.R4-every-component-resolved", rets[0] if rets else cv, ok, "validate returns the collected errors" if ok else "validate does not return out_errors")
+
+    # ---------------- R13: known means known in THAT stage -------------------------------------------------------
+    vr = fl.functions.get("FlowIR.validate_references")
+    ctx.require(vr is not None, "anchor missing: FlowIR.validate_references")
+    ctx.analysed(vr)
+    marks = [a_ for a_ in source.walk_own(vr) if isinstance(a_, ast.Assign) and isinstance(a_.value, ast.Constant) and a_.value.value is True
+             and len(a_.targets) == 1 and isinstance(a_.targets[0], ast.Subscript) and isinstance(a_.targets[0].slice, ast.Name)]
+    ctx.floor("C11.R13-a-reference-is-known-by-stage-and-name", len(marks), 1, "places where validate_references marks a referenced component as known")
+    for a_ in marks:
+        idv = a_.targets[0].slice.id
+        guard = next((x for x in source.ancestors(a_) if isinstance(x, ast.If)), None)
+        whole, parts = False, set()
+        if guard is not None:
+            for y in ast.walk(guard.test):
+                if isinstance(y, ast.Name) and y.id == idv:
+                    par = source.parent(y)
+                    if isinstance(par, ast.Subscript) and par.value is y and isinstance(par.slice, ast.Constant):
+                        parts.add(par.slice.value)
+                    else:
+                        whole = True
+        ok = guard is not None and (whole or {0, 1} <= parts)
+        ctx.ob("C11.R13-a-reference-is-known-by-stage-and-name", guard.test if guard is not None else a_, ok,
+               "a referenced component counts as known under a test of its whole identifier" if ok else
+               "validate_references marks a referenced component as known under a test that uses only part of its identifier (%s): dropping 'stage1.setup' while "
+               "'stage0.setup' exists, or mistyping only the stage of a reference ('stage7.run'), leaves a dangling reference that a primitive load "
+               "accepts" % (short(guard.test, 50) if guard is not None else "no guard"),
+               construct="validate_references: known <- stage and name")
